@@ -460,11 +460,11 @@ pub fn main(args: &[String]) {
 
     // ---- G3b: exhaustive short programs AT the limits -------------------------------------------
     // prefix climbing to explicit depth 124/125 (embeddings or isolates), then every program of
-    // length <= 4 (thorough: 5) over {LRI, RLE, LRO, PDI, PDF}, a marker letter after each step so
+    // length <= 4 over {LRI, RLE, LRO, PDI, PDF, RLI, FSI}, a marker letter after each step so
     // that every intermediate state is observable, then a closing tail
     {
-        let steps: [u32; 5] = [0x2066, 0x202B, 0x202D, 0x2069, 0x202C];
-        let plen = if thorough { 5 } else { 4 };
+        let steps: [u32; 7] = [0x2066, 0x202B, 0x202D, 0x2069, 0x202C, 0x2067, 0x2068];
+        let plen = 4;
         let mut progs: Vec<Vec<usize>> = vec![vec![]];
         let mut all: Vec<Vec<usize>> = Vec::new();
         for _ in 0..plen {
@@ -475,14 +475,22 @@ pub fn main(args: &[String]) {
         }
         for (pi, prog) in all.iter().enumerate() {
             // quick tier: full length-4 space with one prefix each (rotating), all shorter ones with every prefix
-            for pf in 0..4usize {
-                if !thorough && prog.len() == plen && pf != pi % 4 { continue; }
+            for pf in 0..8usize {
+                // quick tier: every prefix for programs of length <= 2, two prefixes for length 3, one prefix for a quarter of length 4
+                // (thorough: every prefix for length <= 3, four of the eight for length 4 — these 130-character cases are the costliest of the run)
+                if thorough && prog.len() == plen && pf % 2 != pi % 2 { continue; }
+                if !thorough && prog.len() == plen && (pf != pi % 8 || (pi / 8) % 4 != 0) { continue; }
+                if !thorough && prog.len() == plen - 1 && pf % 4 != pi % 4 { continue; }
                 let mut items = Vec::new();
-                let depth = if pf % 2 == 0 { 125 } else { 124 };
+                // prefixes 0-3: 125 / 124 levels by embeddings (0, 1) or isolates (2, 3); 4, 5: 123 levels;
+                // 6, 7: embeddings then ONE isolate initiator of the other kind on top (mixed stacks: 61 x RLE, LRI = level 123 ...)
+                let depth = match pf { 0 | 2 => 125, 1 | 3 => 124, 4 | 5 => 123, 6 => 122, _ => 121 };
                 for j in 0..depth {
-                    let c = if pf < 2 { if j % 2 == 0 { 0x202B } else { 0x202A } } else { if j % 2 == 0 { 0x2067 } else { 0x2066 } };
+                    let c = if pf < 2 || pf == 4 || pf >= 6 { if j % 2 == 0 { 0x202B } else { 0x202A } } else { if j % 2 == 0 { 0x2067 } else { 0x2066 } };
                     items.push(Item::Ch(c));
                 }
+                if pf == 6 { items.push(Item::Ch(0x2066)); }
+                if pf == 7 { items.push(Item::Ch(0x2067)); items.push(Item::Ch(0x2066)); }
                 items.push(Item::Ch(0x61));
                 for (k, &s) in prog.iter().enumerate() {
                     items.push(Item::Ch(steps[s]));
@@ -520,7 +528,8 @@ pub fn main(args: &[String]) {
     // d initiators, then d-1 / d / d-2 PDIs, a strong character, a PDI, a strong character of the
     // other direction: the first strong character outside all isolates decides, at any depth
     for (n, &d) in [1usize, 2, 60, 124, 125, 126, 127, 128, 129, 130, 200, 255, 256, 257, 300].iter().enumerate() {
-        for (m, closes) in [d.saturating_sub(1), d, d.saturating_sub(2), d + 1].iter().enumerate() {
+        // (closing none or only a few leaves the paragraph END inside 60 .. 300 open isolates)
+        for (m, closes) in [d.saturating_sub(1), d, d.saturating_sub(2), d + 1, 0, 3.min(d)].iter().enumerate() {
             for v in 0..3usize {
                 let mut items = Vec::new();
                 for j in 0..d { items.push(Item::Ch([0x2066u32, 0x2067, 0x2068][(j + v) % 3])); }
@@ -530,7 +539,18 @@ pub fn main(args: &[String]) {
                 items.push(Item::Ch(if (n + m + v) % 2 == 0 { 0x5D0 } else { 0x61 }));
                 if v == 2 { items.push(Item::Ch(0xA)); items.push(Item::Ch(0x627)); }
                 let enc = if (n + m) % 4 == 0 { 16 } else { 8 };
-                o.emit(&Case { enc, dir: 'a', items, ds: None, fam: "G3".into(), max_line_chars: usize::MAX });
+                o.emit(&Case { enc, dir: 'a', items: items.clone(), ds: None, fam: "G3".into(), max_line_chars: usize::MAX });
+                // the same paragraph followed by a second one that starts with isolate bookkeeping of its own:
+                // nothing of the first paragraph's (possibly overflowing) isolate state may reach it
+                if v < 2 && d >= 60 && d <= 130 {
+                    for (t, tail) in [&[0x2068u32, 0x627][..], &[0x2066, 0x2069, 0x5D0], &[0x2069, 0x2068, 0x61, 0x2069, 0x5D0], &[0x2067, 0x2066, 0x2069, 0x2069, 0x627]].iter().enumerate() {
+                        if m < 4 && (t + m + v) % 2 == 1 { continue; }
+                        let mut it2 = items.clone();
+                        it2.push(Item::Ch(B_CHARS[(n + t) % B_CHARS.len()]));
+                        for &c in *tail { it2.push(Item::Ch(c)); }
+                        o.emit(&Case { enc, dir: dir_of(t + v), items: it2, ds: None, fam: "G3".into(), max_line_chars: usize::MAX });
+                    }
+                }
             }
         }
     }
@@ -613,6 +633,60 @@ pub fn main(args: &[String]) {
         // keep only the table rows the text uses (smaller case lines; unlisted characters default to L / no bracket)
         let used: Vec<(u32, &'static str, Option<(u32, bool)>)> = table.into_iter().filter(|e| items.contains(&Item::Ch(e.0))).collect();
         o.emit(&Case { enc, dir: dir_of(d), items, ds: Some(used), fam: "G5".into(), max_line_chars: 4 });
+    }
+
+    // ---- G5b: a custom data source that DISAGREES with the built-in one on every character it is asked about,
+    // over an exhaustive role alphabet: two strong roles, an opening and a closing bracket whose ENCODED LENGTHS
+    // differ (1..4 bytes / 1..2 units, so "skip the bracket's own code units" has to use the right bracket),
+    // an NSM, a neutral and a number.  Every sequence of roles up to length 5 (thorough: 6); the characters and
+    // classes behind the roles rotate with the sequence number.
+    {
+        // characters by encoded length (UTF-8 bytes / UTF-16 units): 1/1, 2/1, 3/1, 4/2
+        let by_len: [&[u32]; 4] = [&[0x71, 0x7A, 0x6B], &[0x436, 0xE9, 0x3B1], &[0x3042, 0x20AC, 0x4E2D], &[0x1F300, 0x10000, 0x1D7CE]];
+        let strong_pairs: [(&'static str, &'static str); 6] = [("R", "L"), ("L", "R"), ("AL", "L"), ("AN", "L"), ("R", "EN"), ("L", "AL")];
+        let neutrals: [&'static str; 3] = ["ON", "WS", "ES"];
+        let numbers: [&'static str; 3] = ["EN", "AN", "ET"];
+        let maxlen = if thorough { 6 } else { 5 };
+        let nroles = 7usize;
+        let mut seqs: Vec<Vec<usize>> = vec![vec![]];
+        let mut count = 0usize;
+        for _l in 1..=maxlen {
+            let mut nxt = Vec::with_capacity(seqs.len() * nroles);
+            for q in &seqs { for a in 0..nroles { let mut t = q.clone(); t.push(a); nxt.push(t); } }
+            for q in &nxt {
+                // only sequences with a bracket or an NSM say anything the plain families do not
+                if !q.iter().any(|&r| r == 2 || r == 3 || r == 4) { continue; }
+                // the sequences with both brackets and an NSM are the target of this family: several variants, every direction
+                let core = q.contains(&2) && q.contains(&3) && q.contains(&4);
+                for rpt in 0..(if core { 9usize } else { 1 }) {
+                count += 1;
+                let v = if core { count * 7 + rpt * 1013 } else { count };
+                let (lo, lc) = (v % 4, (v / 4 + 1 + v % 4) % 4);             // lengths of the opening / closing bracket: all 12 unequal pairs + equal ones
+                let open = by_len[lo][(v / 16) % 3];
+                let close = by_len[lc][(v / 16 + 1) % 3];
+                let (c1, c2) = strong_pairs[(v / 3) % 6];
+                let s1 = by_len[(v / 5) % 4][(v / 7 + 2) % 3];
+                let s2 = by_len[(v / 11) % 4][(v / 13 + 1) % 3];
+                let nsm = [0x6E, 0x44F, 0x3044, 0x1F600][(v / 17) % 4];
+                let neu = [0x6F, 0x44E, 0x3046, 0x1F601][(v / 19) % 4];
+                let num = [0x6D, 0x44D, 0x3048, 0x1F602][(v / 23) % 4];
+                let mut chars = vec![s1, s2, open, close, nsm, neu, num];
+                // distinct characters for distinct roles
+                let mut bump = 0u32;
+                for i in 0..chars.len() { while chars[..i].contains(&chars[i]) { bump += 1; chars[i] = 0x4E00 + bump; } }
+                let open = chars[2];
+                let table: Vec<(u32, &'static str, Option<(u32, bool)>)> = vec![
+                    (chars[0], c1, None), (chars[1], c2, None),
+                    (chars[2], "ON", Some((open, true))), (chars[3], "ON", Some((open, false))),
+                    (chars[4], "NSM", None), (chars[5], neutrals[(v / 29) % 3], None), (chars[6], numbers[(v / 31) % 3], None)];
+                let items: Vec<Item> = q.iter().map(|&r| Item::Ch(chars[r])).collect();
+                let used: Vec<(u32, &'static str, Option<(u32, bool)>)> = table.into_iter().filter(|e| items.contains(&Item::Ch(e.0))).collect();
+                let enc = if v % 3 == 0 { 16 } else { 8 };
+                o.emit(&Case { enc, dir: dir_of(if core { rpt % 3 } else { v % 3 }), items, ds: Some(used), fam: "G5b".into(), max_line_chars: if v % 5 == 0 { 3 } else { usize::MAX } });
+                }
+            }
+            seqs = nxt;
+        }
     }
 
     // ---- G7: texts generated from a small grammar of the structures the isolating-run-sequence logic lives on:
@@ -703,6 +777,39 @@ pub fn main(args: &[String]) {
             let d = dir_of(o.rng.below(3));
             let lines_ok = o.rng.chance(1, 8);
             o.emit(&Case { enc, dir: d, items, ds: None, fam: "G8".into(), max_line_chars: if lines_ok { 3 } else { usize::MAX } });
+        }
+    }
+
+    // ---- G9: lines made of MANY level runs (33 .. 90, one or two characters each) at three or more levels:
+    // run-count thresholds (small-vector inline capacity, "fast paths" for short lines) sit at 8 / 16 / 32 / 64 runs
+    {
+        let n9 = if thorough { 8000 } else { 800 };
+        for k in 0..n9 {
+            let enc: u8 = if o.rng.chance(1, 4) { 16 } else { 8 };
+            let nruns = match k % 6 { 0 => 7 + o.rng.below(4), 1 => 15 + o.rng.below(4), 2 => 31 + o.rng.below(4), 3 => 63 + o.rng.below(4), _ => 33 + o.rng.below(58) };
+            let mut items: Vec<Item> = Vec::new();
+            let alt = [["L", "R"], ["R", "EN"], ["L", "AL"], ["R", "L"]][o.rng.below(4)];
+            let mut open_iso = 0usize; let mut open_emb = 0usize;
+            for j in 0..nruns {
+                // an initiator / terminator now and then: the following runs sit one or two levels higher
+                if o.rng.chance(1, 9) {
+                    let c = [0x2066u32, 0x2067, 0x202A, 0x202B, 0x2068][o.rng.below(5)];
+                    if c >= 0x2066 { open_iso += 1 } else { open_emb += 1 }
+                    items.push(Item::Ch(c));
+                } else if open_iso > 0 && o.rng.chance(1, 12) { items.push(Item::Ch(0x2069)); open_iso -= 1; }
+                else if open_emb > 0 && o.rng.chance(1, 12) { items.push(Item::Ch(0x202C)); open_emb -= 1; }
+                let cls = alt[j % 2];
+                items.push(Item::Ch(rep(sym(cls), j % 3)));
+                if o.rng.chance(1, 10) { items.push(Item::Ch(rep(sym(cls), (j + 1) % 3))); }
+            }
+            let n = items.len();
+            let mut lines = vec![(0, n)];
+            let a = o.rng.below(4); let b = n - o.rng.below(4);
+            if a < b { lines.push((a, b)); }
+            if n > 40 { lines.push((n - 36 - o.rng.below(4), n)); lines.push((0, 34 + o.rng.below(4))); }
+            lines.sort(); lines.dedup();
+            let d = dir_of(o.rng.below(3));
+            o.emit_lines(&Case { enc, dir: d, items, ds: None, fam: "G9".into(), max_line_chars: 0 }, lines);
         }
     }
 
@@ -877,6 +984,16 @@ pub fn main(args: &[String]) {
             3 => 126,
             _ => { let h = len / 2; let dist = if j < h { j } else { len - 1 - j }; std::cmp::min(126, base % 100 + dist) }
         }).collect();
+        let id = o.n; o.n += 1;
+        o.raw(format!("V\t{}\t{}", id, v.iter().map(|x| x.to_string()).collect::<Vec<_>>().join(",")), "V");
+    }
+
+    let nvl = if thorough { 8000 } else { 800 };
+    for k in 0..nvl {
+        let len = match k % 5 { 0 => 31 + o.rng.below(4), 1 => 63 + o.rng.below(4), 2 => 127 + o.rng.below(4), _ => 25 + o.rng.below(100) };
+        let base = o.rng.below(122);
+        let spread = 2 + o.rng.below(4);
+        let v: Vec<usize> = (0..len).map(|_| std::cmp::min(126, base + o.rng.below(spread))).collect();
         let id = o.n; o.n += 1;
         o.raw(format!("V\t{}\t{}", id, v.iter().map(|x| x.to_string()).collect::<Vec<_>>().join(",")), "V");
     }
